@@ -12,9 +12,10 @@ SCALARS = ["bool", "char", "i8", "i16", "i32", "i64", "i128", "isize", "u8", "u1
 KW = {"struct": "Kstruct", "trait": "Ktrait", "impl": "Kimpl", "for": "Kfor", "where": "Kwhere", "forall": "Kforall",
       "mut": "Kmut", "'static": "Kstatic", "'erased": "Kerased", "upstream": "Kupstream", "fundamental": "Kfundamental",
       "phantom_data": "Kphantom_data", "auto": "Kauto", "marker": "Kmarker", "non_enumerable": "Knon_enumerable",
-      "coinductive": "Kcoinductive", "object_safe": "Kobject_safe"}
+      "coinductive": "Kcoinductive", "object_safe": "Kobject_safe", "enum": "Kenum", "one_zst": "Kone_zst", "str": "Kstr",
+      "const": "Kconst"}
 PUNCT = {"<": "PLt", ">": "PGt", "(": "PLParen", ")": "PRParen", "{": "PLBrace", "}": "PRBrace", "[": "PLBracket",
-         "]": "PRBracket", ",": "PComma", ":": "PColon", "&": "PAmp", "!": "PBang", "#": "PHash"}
+         "]": "PRBracket", ",": "PComma", ":": "PColon", "&": "PAmp", "!": "PBang", "#": "PHash", "*": "PStar"}
 
 
 def item_name(n):
@@ -40,6 +41,9 @@ def tok_term(t: str, names):
     m = re.fullmatch(r"field_(\d+)", t)
     if m:
         return ("FIELD", Nat(int(m.group(1))))
+    m = re.fullmatch(r"variant_(\d+)", t)
+    if m:
+        return ("VARIANT", Nat(int(m.group(1))))
     if t in names:
         return ("ID", names[t])
     return None
@@ -74,12 +78,21 @@ class Gen:
             nullary = [i for i, ks in self.structs.items() if not ks]
             if nullary and r.random() < 0.4:
                 return ("TAdt", Nat(r.choice(nullary)), [])
+            c2 = r.random()
+            if c2 < 0.1:
+                return "TStr"
+            if c2 < 0.2:
+                return "TNever"
             return ("TScalar", "S" + r.choice(SCALARS))
-        if c < 0.6 and self.structs:
+        if c < 0.55 and self.structs:
             i = r.choice(sorted(self.structs))
             return ("TAdt", Nat(i), [self.garg(k, scopes, depth - 1) for k in self.structs[i]])
-        if c < 0.8:
+        if c < 0.72:
             return ("TTuple", [self.ty(scopes, depth - 1) for _ in range(r.choice([0, 1, 2, 3]))])
+        if c < 0.80:
+            return ("TRaw", r.random() < 0.5, self.ty(scopes, depth - 1))
+        if c < 0.86:
+            return ("TSlice", self.ty(scopes, depth - 1))
         return ("TRef", r.random() < 0.4, self.lt(scopes), self.ty(scopes, depth - 1))
 
     def wc(self, scopes):
@@ -102,7 +115,7 @@ class Gen:
     def program(self):
         r = self.r
         n = r.randint(1, 6)
-        kinds = [r.choice(["s", "s", "t", "i"]) for _ in range(n)]
+        kinds = [r.choice(["s", "s", "e", "t", "i"]) for _ in range(n)]
         if "t" not in kinds:
             kinds.append("t")
         r.shuffle(kinds)
@@ -111,7 +124,7 @@ class Gen:
         for i, k in enumerate(kinds):
             ps = self.kinds(3)
             hdr.append(ps)
-            if k == "s":
+            if k in ("s", "e"):
                 self.structs[i] = ps
             elif k == "t":
                 self.traits[i] = ps
@@ -120,8 +133,13 @@ class Gen:
             ps = hdr[i]
             if k == "s":
                 fund = bool(ps) and r.random() < 0.15
-                fl = ("Build_sflags", r.random() < 0.15, fund, r.random() < 0.1)
+                fl = ("Build_sflags", r.random() < 0.15, fund, r.random() < 0.1, r.random() < 0.1)
                 items.append(("IStruct", i + 100, ps, fl, [self.ty([ps]) for _ in range(r.choice([0, 1, 2, 3]))], self.qwcs([ps])))
+            elif k == "e":
+                fund = bool(ps) and r.random() < 0.15
+                fl = ("Build_sflags", r.random() < 0.15, fund, r.random() < 0.1, r.random() < 0.1)
+                vs = [[self.ty([ps]) for _ in range(r.choice([0, 1, 2]))] for _ in range(r.choice([0, 1, 2, 3]))]
+                items.append(("IEnum", i + 100, ps, fl, vs, self.qwcs([ps])))
             elif k == "t":
                 auto = (not ps) and r.random() < 0.2
                 fl = ("Build_tflags", auto, *[r.random() < 0.12 for _ in range(6)])
@@ -146,7 +164,7 @@ def _pname(level, i, k):
 class Src:
     def __init__(self, items):
         self.items = items
-        self.names = {i: item_name(it[1]) for i, it in enumerate(items) if it[0] in ("IStruct", "ITrait")}
+        self.names = {i: item_name(it[1]) for i, it in enumerate(items) if it[0] in ("IStruct", "IEnum", "ITrait")}
 
     def var(self, scopes, d, i):
         """scopes: innermost first, each (level, kinds, is_trait)"""
@@ -163,7 +181,15 @@ class Src:
         return self.var(sc, int(l[1][0]), int(l[1][1]))
 
     def ty(self, t, sc):
+        if t == "TStr":
+            return "str"
+        if t == "TNever":
+            return "!"
         h = t[0]
+        if h == "TRaw":
+            return "*" + ("mut " if t[1] else "const ") + self.ty(t[2], sc)
+        if h == "TSlice":
+            return "[" + self.ty(t[1], sc) + "]"
         if h == "TVar":
             return self.var(sc, int(t[1][0]), int(t[1][1]))
         if h == "TAdt":
@@ -204,9 +230,15 @@ class Src:
             if it[0] == "IStruct":
                 _, nm, ps, fl, fields, wcs = it
                 sc = [(0, ps, False)]
-                at = "".join("#[%s] " % n for n, b in zip(["upstream", "fundamental", "phantom_data"], fl[1:]) if b)
+                at = "".join("#[%s] " % n for n, b in zip(["upstream", "fundamental", "phantom_data", "one_zst"], fl[1:]) if b)
                 out.append(at + "struct " + item_name(nm) + self.params(0, ps) + self.where(wcs, sc) + " { "
                            + ", ".join("x%d: %s" % (i, self.ty(t, sc)) for i, t in enumerate(fields)) + " }")
+            elif it[0] == "IEnum":
+                _, nm, ps, fl, vs, wcs = it
+                sc = [(0, ps, False)]
+                at = "".join("#[%s] " % n for n, b in zip(["upstream", "fundamental", "phantom_data", "one_zst"], fl[1:]) if b)
+                body = ", ".join("V%d { %s }" % (k, ", ".join("x%d: %s" % (i, self.ty(t, sc)) for i, t in enumerate(v))) for k, v in enumerate(vs))
+                out.append(at + "enum " + item_name(nm) + self.params(0, ps) + self.where(wcs, sc) + " { " + body + " }")
             elif it[0] == "ITrait":
                 _, nm, ps, fl, wcs = it
                 sc = [(0, ["KTy"] + ps, True)]
@@ -236,7 +268,15 @@ def d_lt(l):
 
 
 def d_ty(t):
+    if t == "TStr":
+        return "Str"
+    if t == "TNever":
+        return "Never"
     h = t[0]
+    if h == "TRaw":
+        return ("Raw", "Mut" if t[1] else "Not", d_ty(t[2]))
+    if h == "TSlice":
+        return ("Slice", d_ty(t[1]))
     if h == "TVar":
         return _bv("BV", t[1])
     if h == "TAdt":
@@ -274,8 +314,12 @@ def expected_dump(items):
     for i, it in enumerate(items):
         if it[0] == "IStruct":
             _, nm, ps, fl, fields, wcs = it
-            out.append(("Adt", i, Str(item_name(nm)), list(ps), "Struct", ("Flags",) + tuple(fl[1:]), ("Repr", False, False, "None"), False,
+            out.append(("Adt", i, Str(item_name(nm)), list(ps), "Struct", ("Flags",) + tuple(fl[1:4]), ("Repr", False, False, "None"), fl[4],
                         ["Invariant"] * len(ps), [[d_ty(t) for t in fields]], d_qwcs(wcs)))
+        elif it[0] == "IEnum":
+            _, nm, ps, fl, vs, wcs = it
+            out.append(("Adt", i, Str(item_name(nm)), list(ps), "Enum", ("Flags",) + tuple(fl[1:4]), ("Repr", False, False, "None"), fl[4],
+                        ["Invariant"] * len(ps), [[d_ty(t) for t in v] for v in vs], d_qwcs(wcs)))
         elif it[0] == "ITrait":
             _, nm, ps, fl, wcs = it
             out.append(("Trait", i, Str(item_name(nm)), ["KTy"] + list(ps), ("Flags",) + tuple(fl[1:7]), fl[7], "None", [], d_qwcs(wcs)))
